@@ -2,6 +2,7 @@
 package c02
 
 import (
+	"strings"
 	"encoding/json"
 	"fmt"
 
@@ -65,6 +66,62 @@ func generate(w *mon.W) {
 		}
 	}
 	rec(nil)
+	// cardinality boundaries: every sequence (length <= 3 quick / 4 thorough) of
+	// operators whose result has no, one or all rows — take 0/1, top 0/1, count,
+	// summarize without and with keys, a predicate that is never / always true,
+	// sort, a projection — where "this cannot add or remove rows" shortcuts go wrong
+	{
+		id := func(n string) *Ident { return &Ident{Name: n} }
+		mk := map[string]func() *Op{
+			"take0":  func() *Op { return &Op{K: "take", X: Num("0")} },
+			"take1":  func() *Op { return &Op{K: "take", X: Num("1")} },
+			"take9":  func() *Op { return &Op{K: "take", X: Num("9")} },
+			"top0":   func() *Op { return &Op{K: "top", X: Num("0"), Terms: []SortTerm{{X: Name("id")}}} },
+			"top1":   func() *Op { return &Op{K: "top", X: Num("1"), Terms: []SortTerm{{X: Name("id"), Dir: "asc"}}} },
+			"count":  func() *Op { return &Op{K: "count"} },
+			"sumall": func() *Op { return &Op{K: "summarize", Cols: []Col{{Name: id("id"), X: Call("count")}}} },
+			"sumby":  func() *Op { return &Op{K: "summarize", Cols: []Col{{Name: id("n"), X: Call("count")}}, HasBy: true, By: []Col{{Name: id("id"), X: Bin("%", Name("id"), Num("2"))}}} },
+			"never":  func() *Op { return &Op{K: "where", X: Bin("<", Name("id"), Num("0"))} },
+			"always": func() *Op { return &Op{K: "where", X: Bin(">=", Name("id"), Num("0"))} },
+			"sort":   func() *Op { return &Op{K: "sort", Terms: []SortTerm{{X: Name("id"), Dir: "desc"}}} },
+			"proj":   func() *Op { return &Op{K: "project", Cols: []Col{{Name: id("id")}}} },
+		}
+		names := []string{"take0", "take1", "take9", "top0", "top1", "count", "sumall", "sumby", "never", "always", "sort", "proj"}
+		var brec func(seq []string)
+		brec = func(seq []string) {
+			if w.Stopped() {
+				return
+			}
+			if len(seq) > 0 {
+				p := &Pipe{Table: Ident{Name: "T"}}
+				ok := true
+				hasID := true
+				for _, n := range seq {
+					if !hasID {
+						ok = false // after count the only column is count(): operators over id have no meaning
+					}
+					p.Ops = append(p.Ops, mk[n]())
+					if n == "count" {
+						hasID = false
+					}
+				}
+				if ok {
+					c := &pipecheck.Case{Pipe: p}
+					for i := 0; i < nInst; i++ {
+						c.Instances = append(c.Instances, int64(1000*len(seq)+i+7))
+					}
+					w.Do("card|"+strings.Join(seq, ","), func(r *mon.R) { pipecheck.Check(c, r, "C02") })
+				}
+			}
+			if len(seq) == maxLen {
+				return
+			}
+			for _, n := range names {
+				brec(append(seq[:len(seq):len(seq)], n))
+			}
+		}
+		brec(nil)
+	}
 	// wide operators (1..17 and near powers of two many elements), alone and followed by others
 	for _, kind := range []string{"project", "extend", "sort", "summarize"} {
 		for _, sz := range gen.WideSizes {
